@@ -30,7 +30,7 @@ ORACLE_OWNER = {
     "lost": ["C01"], "phantom": ["C01", "C02"], "body": ["C01"], "pub": ["C01"],
     "settle": PROPS_ALL, "settle-count": ["C13", "C01"], "settle-ledger": ["C01", "C02", "C13"],
     "settle-stall": ["C03", "C01"], "settle-pausedpump": ["C03"], "client-count": ["C13", "C03"], "chan-count": ["C13"],
-    "late-answer": ["C02"], "fin-final": ["C02"], "fanout-missed": ["C01"], "sched": PROPS_ALL,
+    "envelope": ["C01"], "late-answer": ["C02"], "fin-final": ["C02"], "fanout-missed": ["C01"], "sched": PROPS_ALL,
     "conc-after-fin": ["C02"], "conc-pub": ["C01"], "conc-sub": ["C03"], "conc-err": ["C02"], "conc-frame": ["C01"], "missed-defer": ["C01"], "early-defer": ["C01"], "req-defer": ["C01"],
     "no-reply": ["C01", "C02", "C03", "C13"], "stray-frame": ["C02", "C03"], "exit-hang": ["C01"],
     "rdy": ["C03"], "rdy-range": ["C03"], "paused-deliver": ["C03"], "topic-pause": ["C03"],
@@ -39,7 +39,7 @@ ORACLE_OWNER = {
     "stats-http": ["C13"], "stats-json": ["C13"], "timeout-count": ["C13"], "empty-http": ["C13"],
     "conc-ledger": ["C01"], "conc-dup": ["C02"], "conc-attempts": ["C02"], "conc-rdy": ["C03"],
     "conc-conservation": ["C13"], "conc-negative": ["C13", "C03"], "conc-inv": PROPS_ALL, "race": PROPS_ALL,
-    "f8": ["C13", "C03"], "bad-frame": ["C01"],
+    "f8": ["C13", "C03"], "bad-frame": ["C01"], "attempts-wrap-65536": ["C02"],
 }
 
 
@@ -89,6 +89,8 @@ def norm_key(f, default):
     generated run cannot open it and keeps its own key, so a drifting counter there is reported."""
     if f["key"] in ("negative", "conc-negative") and "in_flight_count" in f["what"]:
         return "inflight-negative-after-empty"
+    if f["key"] == "attempts-wrap-65536":
+        return "attempts-wrap-65536"      # F11: the uint16 attempts field wraps (thorough-tier replay)
     return default
 
 
@@ -209,6 +211,8 @@ def shared_run(ctx):
         for prop in PROPS_ALL:
             for script in sorted(glob.glob(os.path.join(ROOT, "corpus", prop, "**", "*.ops"), recursive=True)):
                 rel = os.path.relpath(script, ROOT)
+                if "# tier: thorough" in open(script).read(400) and not ctx.thorough():
+                    continue  # long replay (F11: 65 537 deliveries of one message): thorough tier only
                 kind = "known" if "/known/" in rel else ("fixed" if "/fixed/" in rel else ("obs" if "/obs/" in rel else "regress"))
                 name = "corpus_" + hashlib.md5(rel.encode()).hexdigest()[:8]
                 fails, diffs, ops, impl, model, hist = replay_script(ctx, keep, cdir, script, name)
